@@ -705,7 +705,14 @@ impl<'a> TypeHumanizer<'a> {
                     self.write_type(field.1, w)?;
                 }
                 LuaMemberKey::Name(s) => {
-                    w.write_str(s)?;
+                    // a key that is not a name is only readable in its bracketed form
+                    if is_field_name(s) {
+                        w.write_str(s)?;
+                    } else {
+                        w.write_str("[\"")?;
+                        write_hover_escape_string(s, w)?;
+                        w.write_str("\"]")?;
+                    }
                     w.write_str(": ")?;
                     self.write_type(field.1, w)?;
                 }
@@ -1214,6 +1221,27 @@ impl<'a> TypeHumanizer<'a> {
 }
 
 // ─── Free helper functions ──────────────────────────────────────────────────
+
+/// Whether `s` can be written as a bare field key of an object type (`{ key: T }`): a name,
+/// possibly with inner `.` / `-` as the doc lexer accepts them.
+fn is_field_name(s: &str) -> bool {
+    let mut chars = s.chars().peekable();
+    match chars.next() {
+        Some(ch) if ch.is_alphabetic() || ch == '_' => {}
+        _ => return false,
+    }
+    while let Some(ch) = chars.next() {
+        match ch {
+            ch if ch.is_alphanumeric() || ch == '_' => {}
+            '.' | '-' => match chars.peek() {
+                Some(next) if next.is_alphanumeric() || *next == '_' => {}
+                _ => return false,
+            },
+            _ => return false,
+        }
+    }
+    true
+}
 
 /// Write an escaped version of `s` directly into `w`.
 fn write_hover_escape_string<W: Write>(s: &str, w: &mut W) -> fmt::Result {
